@@ -442,7 +442,9 @@ def heredoc_truncations():
 
 def illformed_contexts():
     """ill-formed expansions put in every context where an expansion is scanned: each source must be rejected"""
-    exp = ["${x", "${", "${}", "${x:-", "${x:-a", "$(", "$(a", "$((", "$((1+", "$((1+2)", "`", "`a", "${x$(}", "$(a ${b)", "${#", "${x%", "${x:-$(a}", "$(a \"b)"]
+    exp = ["${x", "${", "${}", "${x:-", "${x:-a", "$(", "$(a", "$((", "$((1+", "$((1+2)", "`", "`a", "${x$(}", "$(a ${b)", "${#", "${x%", "${x:-$(a}", "$(a \"b)",
+           # the string length takes no operator (the # was dropped silently)
+           "${#x:-1}", "${#x%y}", "${#x-}", "${#1+2}", "${#x y}"]
     wordonly = ["'a", "\"a", "\"${x\"", "\"$(a\""]
     wctx = ["echo X", "echo a X", "echo \"X\"", "a=X", "echo ${y:-X}", "echo $(echo X)", "for i in X; do :; done", "case X in a) ;; esac",
             "case a in X) ;; esac", "echo >X", "f() { echo X; }", "if X; then :; fi", "echo a; X", "! X", "a | X", "( X )", "while X; do :; done",
